@@ -30,7 +30,96 @@ def rename(con, model_id, old, new):
     return True
 
 
-def mutate(r, src, dst, diagram, nops):
+_LEAVES = {}
+
+
+def leaf_types(src, diagram):
+    """{class id: component} for the types an attribute may be re-typed to - enumerations and concrete classes
+    without abstract operations - and the component (undirected closure over inheritance, associations, attribute
+    and parameter types) of every class: a holder may only receive a type of another component, so that the edit
+    cannot close an include / completeness cycle.  Read with the generator's own parser from the unedited project."""
+    key = (src, diagram)
+    if key not in _LEAVES:
+        import sys
+        import common
+        V = sys.modules.get("kojen.vppclassdiagram")
+        if V is None:
+            import importlib
+            V = importlib.import_module("kojen.vppclassdiagram")
+        with common.quiet():
+            cd = V.ExtractClassDiagram(diagram, src)
+        byname = {(c.NAMESPACE + "::" + c.NAME if c.NAMESPACE else c.NAME): cid for cid, c in cd.classes.items()}
+        comp = {cid: cid for cid in cd.classes}
+
+        def find(x):
+            while comp[x] != x:
+                comp[x] = comp[comp[x]]
+                x = comp[x]
+            return x
+
+        def union(x, y):
+            if x in comp and y in comp:
+                comp[find(x)] = find(y)
+        for a in cd.associations.values():
+            union(a.CLASS_FROM_ID, a.CLASS_TO_ID)
+        for i in cd.inheritence.values():
+            union(i.CLASS_FROM_ID, i.CLASS_TO_ID)
+        for cid, c in cd.classes.items():
+            for at in c.ATTRIBUTES:
+                union(cid, byname.get(at.TYPE))
+            for o in c.OPERATIONS:
+                union(cid, byname.get(o.RETURN_TYPE))
+                for pa in o.PARAMETERS:
+                    union(cid, byname.get(pa["type"]))
+        ok = {cid for cid, c in cd.classes.items()
+              if c.IS_ENUM or (not c.PURE_VIRTUAL_INTERFACE and not any(o.VIRTUAL for o in c.OPERATIONS))}
+        _LEAVES[key] = ({cid: find(cid) for cid in cd.classes}, ok)
+    return _LEAVES[key]
+
+
+def is_enum(src, diagram, cid):
+    import sys
+    import common
+    V = sys.modules["kojen.vppclassdiagram"]
+    key = ("enum", src, diagram)
+    if key not in _LEAVES:
+        with common.quiet():
+            cd = V.ExtractClassDiagram(diagram, src)
+        _LEAVES[key] = {k for k, c in cd.classes.items() if c.IS_ENUM}
+    return cid in _LEAVES[key]
+
+
+ATTR_START = re.compile(r'\{(\w+):"([^"]*)":Attribute \{')
+CHILD_START = re.compile(r'\n\t\t\{\w+:"[^"]*":\w+ \{')
+
+
+def attribute_blocks(text):
+    """(start, end, name) of the attribute entries of a class definition"""
+    out = []
+    for m in ATTR_START.finditer(text):
+        nxt = CHILD_START.search(text, m.end())
+        out.append((m.start(), nxt.start() if nxt else len(text), m.group(2)))
+    return out
+
+
+def reference_to(con, model_id):
+    """the `<owner chain:id>` spelling by which definitions refer to the element"""
+    cur = con.cursor()
+    chain = [model_id]
+    while True:
+        cur.execute("SELECT PARENT_ID FROM MODEL_ELEMENT WHERE ID=?", (chain[0],))
+        row = cur.fetchone()
+        if not row or not row[0]:
+            break
+        cur.execute("SELECT MODEL_TYPE FROM MODEL_ELEMENT WHERE ID=?", (row[0],))
+        t = cur.fetchone()
+        if not t or t[0] != "Package":
+            break
+        chain.insert(0, row[0])
+    return "<" + ":".join(chain) + ">"
+
+
+def mutate(r, src, dst, diagram, nops, only=None):
     """returns the list of applied operations"""
     shutil.copyfile(src, dst)
     con = sqlite3.connect(dst)
@@ -42,7 +131,54 @@ def mutate(r, src, dst, diagram, nops):
             packages = [e for e in elems if e[2] == "Package"]
             # (removing only the package *shape* is not offered: the classes would still be owned by the package in the
             # model while the diagram no longer says so - types are then qualified by ownership, namespaces by the diagram)
-            op = r.choice(["rename-class", "rename-class", "remove-class", "rename-package", "unpackage-class", "unpackage-class"])
+            op = r.choice(["rename-class", "rename-class", "remove-class", "rename-package", "unpackage-class", "unpackage-class",
+                           "retype-attribute", "retype-attribute"]) if only is None else only
+            enum_ref = op == "retype-reference-to-enum"
+            if enum_ref:
+                op = "retype-attribute"
+            if op == "retype-attribute" and classes:
+                # an attribute (without initial value) gets another type of the diagram - mostly of another package
+                cur = con.cursor()
+                comps, usable = leaf_types(src, diagram)
+                present = {e[1] for e in classes}
+                holders = []
+                for e in classes:
+                    cur.execute("SELECT DEFINITION FROM MODEL_ELEMENT WHERE ID=?", (e[1],))
+                    text = cur.fetchone()[0].decode("utf-8")
+                    for (a0, a1, aname) in attribute_blocks(text):
+                        blk = text[a0:a1]
+                        mt = re.search(r"\btype=(<[\w.:]+>);", blk)
+                        # (an initial value belongs to the old type; a read-only static attribute without one relies on
+                        #  its type's user-provided default constructor - re-typing either would make the *model* ill-formed)
+                        if enum_ref and "typeModifier=" not in blk:
+                            continue
+                        if mt and "initialValue" not in blk and not ("readOnly=T" in blk and "scope=" in blk):
+                            holders.append((e, text, a0 + mt.start(1), mt.group(1), aname))
+                if holders:
+                    # the holding element first (classes, structs and interfaces take different routes through the generator)
+                    hid = r.choice(sorted({h[0][1] for h in holders}))
+                    e, text, pos, old, aname = r.choice([h for h in holders if h[0][1] == hid])
+                    cur.execute("SELECT PARENT_ID FROM MODEL_ELEMENT WHERE ID=?", (e[1],))
+                    own = cur.fetchone()[0]
+
+                    def parent(x):
+                        cur.execute("SELECT PARENT_ID FROM MODEL_ELEMENT WHERE ID=?", (x,))
+                        return cur.fetchone()[0]
+                    cands = [x for x in sorted(usable) if x in present and x != e[1] and comps.get(x) != comps.get(e[1])]
+                    if enum_ref:
+                        # a pointer / reference attribute re-typed to an enumeration (any component: an enumeration depends on nothing)
+                        cur.execute("SELECT ID FROM MODEL_ELEMENT WHERE MODEL_TYPE='Class'")
+                        cands = [x for x in sorted(usable) if x in present and x != e[1] and is_enum(src, diagram, x)]
+                    away = [x for x in cands if parent(x) != own]
+                    if cands:
+                        target = r.choice(away if away and r.random() < 0.7 else cands)
+                        new = reference_to(con, target)
+                        if new != old:
+                            text = text[:pos] + new + text[pos + len(old):]
+                            cur.execute("UPDATE MODEL_ELEMENT SET DEFINITION=? WHERE ID=?", (text.encode("utf-8"), e[1]))
+                            tname = [c[3] for c in classes if c[1] == target][0]
+                            applied.append([op, e[3] + "." + aname, tname])
+                continue
             if op == "rename-class" and classes:
                 e = r.choice(classes)
                 prefix = re.match(r"[A-Za-z]?", e[3]).group(0) if e[3][:1] in "CIEs" else "C"
